@@ -36,23 +36,14 @@ Fixpoint addr_eqb (a b : addr) : bool :=
 
 (* ---- the messages handed to the callback -------------------------------- *)
 Inductive msg :=
-| SetMsg (a : addr) (ty : Z) (v : Z)    (* "<addr> ,<ty> v" *)
-| EmptyMsg.                             (* the zeroed 256-byte buffer *)
+| SetMsg (a : addr) (ty : Z) (v : Z).   (* "<addr> ,<ty> v" *)
 
-(* size of "<addr> ,<t> <4 bytes>" as vsosc_null computes it *)
-Definition set_len (a : addr) : Z :=
-  let l := Z.of_nat (length a) in (l + (4 - l mod 4)) + 4 + 4.
-
-Definition fits (a : addr) : bool := set_len a <=? 256.
-
-(* UndoHistoryImpl::rewind: memset(tmp), rtosc_amessage(tmp, 256, ...), cb(tmp)
-   - the callback runs even when the message did not fit *)
-Definition rewind (e : ev) : list msg :=
-  if fits (eaddr e) then [SetMsg (eaddr e) (ety e) (eold e)] else [EmptyMsg].
-
-(* UndoHistoryImpl::replay: if(len) cb(tmp) *)
-Definition replay (e : ev) : list msg :=
-  if fits (eaddr e) then [SetMsg (eaddr e) (ety e) (enew e)] else [].
+(* UndoHistoryImpl::rewind / replay: the set-message built from argument 1 / 2
+   of the event.  After the long-address repair the buffer is sized from the
+   message (static 256 bytes or a heap block), so the callback always gets the
+   message; the previous fixed-buffer functions are kept in UndoRegress.v *)
+Definition rewind (e : ev) : list msg := [SetMsg (eaddr e) (ety e) (eold e)].
+Definition replay (e : ev) : list msg := [SetMsg (eaddr e) (ety e) (enew e)].
 
 (* ---- mergeEvent ---------------------------------------------------------- *)
 (* the loop "for(i = history_pos-1; i >= 0; --i)" over the entries newest
@@ -171,7 +162,7 @@ Definition upd (f : store) (a : addr) (v : Z) : store :=
   fun x => if addr_eqb x a then v else f x.
 
 Definition apply_msg (f : store) (m : msg) : store :=
-  match m with SetMsg a _ v => upd f a v | EmptyMsg => f end.
+  match m with SetMsg a _ v => upd f a v end.
 
 Definition apply_msgs (f : store) (ms : list msg) : store := fold_left apply_msg ms f.
 
